@@ -1,6 +1,9 @@
 // C16 (digest/MAC/KDF primitives) and C17 (DES core, setkey/encrypt).
 #include <dlfcn.h>
 #include <openssl/des.h>
+#include <openssl/md4.h>
+#include <openssl/md5.h>
+#include <openssl/sha.h>
 
 #include "main.hpp"
 #include "methods.hpp"
@@ -71,7 +74,109 @@ static Bytes lib_digest_chunked(int algo, const Bytes &msg, const std::vector<si
   return out;
 }
 
+// ---- long messages by resumption -----------------------------------------------------------------
+// "Every message length" includes lengths no test can feed.  The length counters and their carries are reached by
+// putting both the tree's context and OpenSSL's into the state "B bytes (a multiple of the block) already hashed,
+// chaining value H" and hashing a generated tail from there; both must produce the same digest.
+#pragma GCC diagnostic push
+#pragma GCC diagnostic ignored "-Wdeprecated-declarations"
+static Bytes ref_resume(int prim, const uint32_t st32[8], const uint64_t st64[8], uint64_t bhi, uint64_t blo, const Bytes &tail) {
+  unsigned char out[64];
+  uint64_t bits_lo = blo << 3, bits_hi = (bhi << 3) | (blo >> 61);
+  switch (prim) {
+    case VFP_MD4: {
+      MD4_CTX c;
+      MD4_Init(&c);
+      c.A = st32[0]; c.B = st32[1]; c.C = st32[2]; c.D = st32[3];
+      c.Nl = (uint32_t)bits_lo; c.Nh = (uint32_t)(bits_lo >> 32);
+      MD4_Update(&c, tail.data(), tail.size());
+      MD4_Final(out, &c);
+      return Bytes((char *)out, 16);
+    }
+    case VFP_MD5: {
+      MD5_CTX c;
+      MD5_Init(&c);
+      c.A = st32[0]; c.B = st32[1]; c.C = st32[2]; c.D = st32[3];
+      c.Nl = (uint32_t)bits_lo; c.Nh = (uint32_t)(bits_lo >> 32);
+      MD5_Update(&c, tail.data(), tail.size());
+      MD5_Final(out, &c);
+      return Bytes((char *)out, 16);
+    }
+    case VFP_SHA1: {
+      SHA_CTX c;
+      SHA1_Init(&c);
+      c.h0 = st32[0]; c.h1 = st32[1]; c.h2 = st32[2]; c.h3 = st32[3]; c.h4 = st32[4];
+      c.Nl = (uint32_t)bits_lo; c.Nh = (uint32_t)(bits_lo >> 32);
+      SHA1_Update(&c, tail.data(), tail.size());
+      SHA1_Final(out, &c);
+      return Bytes((char *)out, 20);
+    }
+    case VFP_SHA256: {
+      SHA256_CTX c;
+      SHA256_Init(&c);
+      for (int i = 0; i < 8; i++) c.h[i] = st32[i];
+      c.Nl = (uint32_t)bits_lo; c.Nh = (uint32_t)(bits_lo >> 32);
+      SHA256_Update(&c, tail.data(), tail.size());
+      SHA256_Final(out, &c);
+      return Bytes((char *)out, 32);
+    }
+    case VFP_SHA512: {
+      SHA512_CTX c;
+      SHA512_Init(&c);
+      for (int i = 0; i < 8; i++) c.h[i] = st64[i];
+      c.Nl = bits_lo; c.Nh = bits_hi;
+      SHA512_Update(&c, tail.data(), tail.size());
+      SHA512_Final(out, &c);
+      return Bytes((char *)out, 64);
+    }
+    default: return Bytes();
+  }
+}
+#pragma GCC diagnostic pop
+
+static Verdict c16_resume(const KV &c, Ctx &ctx) {
+  int prim = (int)c.geti("prim") % 5;  // MD4, MD5, SHA-1, SHA-256, SHA-512 (libgcrypt's Streebog cannot be resumed)
+  Bytes tail = c.get("msg");
+  size_t off = (size_t)c.geti("off") & 15;
+  std::vector<size_t> chunks = decode_splits(c.get("splits"), tail.size());
+  uint64_t blo = c.getu("before_lo"), bhi = prim == VFP_SHA512 ? c.getu("before_hi") : 0;
+  size_t bl = vfp_block_len(prim);
+  blo &= ~(uint64_t)(bl - 1);
+  // stay inside the functions' domains: fewer than 2^64 (SHA-512: 2^128) message bits in total
+  if (prim != VFP_SHA512 && blo > (1ULL << 61) - (1ULL << 20)) blo = ((1ULL << 61) - (1ULL << 20)) & ~(uint64_t)(bl - 1);
+  if (prim == VFP_SHA512 && bhi >= (1ULL << 60)) bhi &= (1ULL << 60) - 1;
+  uint32_t st32[8];
+  uint64_t st64[8];
+  Bytes sv = c.get("state");
+  sv.resize(64, '\x5c');
+  memcpy(st64, sv.data(), 64);
+  memcpy(st32, sv.data(), 32);
+  void *cx = malloc(vfp_ctx_size(prim));
+  vfp_init(prim, cx);
+  if (!vfp_resume(prim, cx, st32, st64, bhi, blo)) { free(cx); return ""; }
+  size_t pos = 0;
+  for (size_t n : chunks) {
+    Exact e(tail.substr(pos, n), off);
+    vfp_update(prim, cx, e.p, n);
+    pos += n;
+  }
+  Bytes got(vfp_digest_len(prim), '\0');
+  vfp_final(prim, cx, (unsigned char *)&got[0]);
+  free(cx);
+  ctx.st.executed++;
+  Bytes want = ref_resume(prim, st32, st64, bhi, blo, tail);
+  std::string where = std::string(" [") + PRIM_NAME[prim] + " after " + (bhi ? std::to_string(bhi) + "*2^64+" : std::string()) + std::to_string(blo) + " bytes, tail len=" + std::to_string(tail.size()) + " chunks=" + std::to_string(chunks.size()) + "]";
+  if (got != want) return "C16 digest of a long message differs from the standard function (context resumed at a block boundary): got " + hex(got) + " want " + hex(want) + where + " state=" + hex(sv.substr(0, prim == VFP_SHA512 ? 64 : 32)) + " tail=" + hex(tail.substr(0, 200));
+  // does the tail carry a length counter across a word boundary?
+  uint64_t end = blo + tail.size();
+  bool carry = ((blo << 3) >> 32) != ((end << 3) >> 32) || (blo >> 29) != (end >> 29) || (prim == VFP_SHA512 && (blo >> 61) != (end >> 61));
+  ctx.st.cls(std::string("c16-resume/") + PRIM_NAME[prim] + (carry ? "/carry" : "/plain"));
+  if (ctx.st.nontriv(fnv(c.serialize())) && ctx.st.samples.size() < ctx.st.sample_cap) ctx.st.sample(std::string(PRIM_NAME[prim]) + " resumed after " + std::to_string(blo) + " bytes, tail " + std::to_string(tail.size()) + (carry ? " (length counter carries)" : ""));
+  return "";
+}
+
 static Verdict c16_check(const KV &c, Ctx &ctx) {
+  if (c.has("before_lo")) return c16_resume(c, ctx);
   int prim = (int)c.geti("prim") % P_COUNT;
   Bytes msg = c.get("msg"), key = c.get("key"), salt = c.get("salt");
   size_t off = (size_t)c.geti("off") & 15;
@@ -417,17 +522,21 @@ static Verdict c17_check(const KV &c, Ctx &ctx) {
         case 1: to_vec(arg, vec, garb, i); A.setkey_r(vec, (char *)objs[oi].p + objoff[oi]); memcpy(objs[oi].key, arg, 8); objs[oi].set = true; break;
         case 2: case 3: {
           bool stat = op == 2;
-          bool dec = arg[9] & 1;
+          // encrypt(3): "if edflag is 0 the block is encrypted, otherwise decrypted" - any non-zero value decrypts
+          static const int EDFLAG[] = {0, 1, 0, 1, 0, 1, 2, -1, 4, 255, 256, 0x10000, (int)0x80000000u, 0x7ffffffe, -2, 42};
+          int edflag = EDFLAG[arg[9] & 15];
+          bool dec = edflag != 0;
           if (stat ? !skey_set : !objs[oi].set) break;
           to_vec(arg, vec, garb, i + 1);
-          if (stat) A.encrypt(vec, dec); else A.encrypt_r(vec, dec, (char *)objs[oi].p + objoff[oi]);
+          if (stat) A.encrypt(vec, edflag); else A.encrypt_r(vec, edflag, (char *)objs[oi].p + objoff[oi]);
+          if (edflag != 0 && edflag != 1) ctx.st.cls("c17/edflag-other-nonzero");
           unsigned char got[8], want[8];
           bool clean = from_vec(vec, got);
           ref::des::crypt_bytes(stat ? skey : objs[oi].key, 0, 1, arg, want, dec);
           ctx.st.executed++;
           nenc++;
           if (stat && ncrypt_between) interleaved = true;
-          std::string where = std::string(stat ? " [encrypt" : " [encrypt_r") + " key=" + hex(Bytes((char *)(stat ? skey : objs[oi].key), 8)) + " block=" + hex(Bytes((const char *)arg, 8)) + (dec ? " decrypt" : " encrypt") + " after " + std::to_string(ncrypt_between) + " crypt calls]";
+          std::string where = std::string(stat ? " [encrypt" : " [encrypt_r") + " key=" + hex(Bytes((char *)(stat ? skey : objs[oi].key), 8)) + " block=" + hex(Bytes((const char *)arg, 8)) + (dec ? " decrypt (edflag " + std::to_string(edflag) + ")" : " encrypt") + " after " + std::to_string(ncrypt_between) + " crypt calls]";
           if (!clean) v = "C17 encrypt left bytes other than 0/1 in the block" + where;
           else if (memcmp(got, want, 8)) v = "C17 " + std::string(stat ? "setkey/encrypt" : "setkey_r/encrypt_r") + " differs from FIPS 46-3 DES: got " + hex(Bytes((char *)got, 8)) + " want " + hex(Bytes((char *)want, 8)) + where;
           break;
@@ -548,6 +657,18 @@ static int c16_run(Ctx &ctx) {
       c.seti("saltabs", g::pick(0, 200));
     }
     c.seti("off", g::pick(0, 15));
+    if (prim < 5 && g::coin(1, 4)) {
+      // long message by resumption: the bytes already hashed sit just below a length-counter word boundary (2^29 bytes
+      // = 2^32 bits, 2^32 bytes, 2^61 bytes = 2^64 bits) or anywhere
+      static const int SH[] = {29, 32, 35, 61, 29, 29};
+      uint64_t B = 1ULL << SH[g::pick(0, 5)];
+      uint64_t back = (uint64_t)g::pick(0, 9) * (prim == 4 ? 128 : 64);
+      uint64_t lo = g::coin(3, 4) ? B - back : g::u64();
+      if (prim != 4 && lo >= (1ULL << 61)) lo = (1ULL << 29) - back;
+      c.setu("before_lo", lo);
+      c.setu("before_hi", g::coin(1, 3) ? (unsigned long long)g::pick(1, 1000000) : 0);
+      c.set("state", g::rbytes(64, 0));
+    }
     return c;
   });
 }
